@@ -22,7 +22,9 @@ def load_findings():
     out = []
     p = os.path.join(ROOT, "known_findings.jsonl")
     if os.path.exists(p):
-        for ln in open(p).read().splitlines():
+        with open(p) as fh:
+            lines = fh.read().splitlines()
+        for ln in lines:
             ln = ln.strip()
             if ln and not ln.startswith("#"):
                 out.append(json.loads(ln))
@@ -167,12 +169,15 @@ class Ctx:
                 self.notes.append("fixed: property=%s %s %s" % (self.pid, f.get("commit", "?"), f["what"]))
         rdir = os.path.join(ROOT, "replays")
         os.makedirs(rdir, exist_ok=True)
+        import glob as _glob
+        for old in _glob.glob(os.path.join(rdir, "%s-%s-*.json" % (self.pid, self.tier))):
+            os.remove(old)
         shown = {}
         for i, (key, msg, replay) in enumerate(violations):
             kk = json.dumps({k: v for k, v in key.items() if k not in ("detail",)}, sort_keys=True, default=str)
             cls = key.get("clause", key.get("engine", "?"))
             shown[cls] = shown.get(cls, 0) + 1
-            if shown[cls] > 5:
+            if shown[cls] > 8:
                 continue
             path = os.path.join(rdir, "%s-%s-%d.json" % (self.pid, self.tier, i))
             with open(path, "w") as fh:
@@ -181,7 +186,9 @@ class Ctx:
             print("VIOLATION property=%s replay=%s" % (self.pid, path))
             print("  %s :: %s" % (kk, msg[:600]))
         if violations:
-            print("  (%d violation(s) in total)" % len(violations))
+            import collections as _c
+            cls = _c.Counter((k.get("clause", "?"), k.get("op", "?")) for k, _, _ in violations)
+            print("  (%d violation(s) in total; by clause/op: %s)" % (len(violations), dict(cls)))
         for d in self.drift[:10]:
             print("DRIFT property=%s %s" % (self.pid, d[:300]))
         cov = {
